@@ -20,7 +20,9 @@ DECIDED = ["R27a grant dominated by the four validators (DOM, cut-set over `?` O
            "R27c strict majority before becoming candidate / leader (TABLE of accepted comparison forms + DOM)",
            "R27d who constructs ClusterState::Leader and who writes Cluster::state (WHO)",
            "R27e a granted vote is durable (MUST over the grant path)",
-           "R27f votes are counted only for the election they were requested in (DOM over the term-equality edge)"]
+           "R27f votes are counted only for the election they were requested in (DOM over the term-equality edge)",
+           "R27h a response resets the node to Election only for a strictly newer term (DOM)",
+           "R27i election() clears every peer's voted flag before the vote round (MUST)"]
 UNDECIDED = ["the election protocol itself over message schedules (needs execution; see findings/server/F17, F20)"]
 
 CL = "agdb_server::raft::Cluster::"
@@ -605,6 +607,60 @@ def rule_leader_term_is_vote_term(ctx, rule="R27g"):
            "earlier candidacy elects it for a newer term in which the voter may still vote for another node", b.where)
 
 
+def rule_stepdown_needs_newer_term(ctx, rule="R27h"):
+    """A node forgets what it did in its term (state := Election drops Voted(t) / Leader / Candidate) on a response only
+    for a strictly newer term: the write in `response` is reachable only through an edge implying
+    `<remote term> > self.term`.  With `>=`, a delayed refusal at the node's own term wipes its vote record and it votes
+    a second time in that term."""
+    fa = ctx.facts
+    b = ctx.anchor(rule, CL + "response::{closure#0}")
+    if not b:
+        return
+    writes = [bi for bb_, bi, kind, var in state_writes(fa) if bb_.path == b.path and kind == "assign" and var == "Election"]
+    cmps = cmp_edges(fa, b)
+    newer = edges_implying(cmps, lambda x: x != "self.term" and "term" in x.lower() or "local" in x, "self.term", ">")
+    ok = bool(writes) and bool(newer) and all(
+        any(cfg.find_path(b, [0], [w], removed_edges=[e]) is None for d, e in newer) for w in writes)
+    ctx.ob(rule, "response:step-down-needs-newer-term", ok,
+           "`state = Election` in response() only on %s" % sorted({d for d, e in newer}) if ok else
+           "response() resets the node to Election (forgetting its vote / leadership of the current term) without a "
+           "strictly newer remote term (writes at %s; comparisons %s)" % (
+               [b.loc(w) for w in writes], [(c["a"], c["op"], c["b"]) for c in cmps]), b.where)
+
+
+def rule_election_resets_votes(ctx, rule="R27i"):
+    """`node.voted` is shared by the pre-vote round and the vote round (pre_vote_received and vote_received both count
+    it): election() must clear it for every peer before it asks for votes, otherwise non-exclusive pre-vote grants are
+    counted as votes of the new term."""
+    fa = ctx.facts
+    b = ctx.anchor(rule, CL + "election")
+    if not b:
+        return
+    resets = []
+    for cb in [b] + fa.closures_of(b.path):
+        for bi, st in cfg.assigns(cb):
+            if st["l"][-1:] == [".voted"] and st["r"]["k"] == "use":
+                c = cfg.op_const(st["r"]["o"])
+                if c is not None and c.get("v") == 0:
+                    resets.append(cb)
+    # the reset runs over all peers: its closure is handed to for_each / a loop over self.nodes before the requests are built
+    fe = [i for i, t in cfg.calls(b) if (cfg.callee_decl(t) or "").endswith(("Iterator::for_each", "Iterator::fold")) and
+          any(cb.path in [x.path for x in resets] for cb in common.closure_bodies_passed(fa, b, t))]
+    direct = [bi for bi, st in cfg.assigns(b) if st["l"][-1:] == [".voted"] and st["r"]["k"] == "use" and
+              cfg.op_const(st["r"]["o"]) is not None and cfg.op_const(st["r"]["o"]).get("v") == 0 and any(bi in c for c in cfg.sccs(b))]
+    sites = fe + direct
+    okb = cfg.return_blocks(b)
+    ok = bool(sites) and cfg.find_path(b, [0], okb, avoid=sites) is None
+    ctx.ob(rule, "election:resets-voted", ok,
+           "every peer's `voted` flag is cleared on every path through election()" if ok else
+           "election() no longer clears the peers' `voted` flags: pre-vote grants (not exclusive) are counted as votes of "
+           "the new term by vote_received", b.where)
+    # and both rounds really share the flag (otherwise the rule is moot): pre_vote_received and vote_received set it
+    users = {fn_name(cb).split("::")[-1] for cb in fa.bodies.values() if cb.crate == "agdb_server" and "raft::" in cb.path
+             for bi, st in cfg.assigns(cb) if st["l"][-1:] == [".voted"] and not (st["r"]["k"] == "use" and (cfg.op_const(st["r"]["o"]) or {}).get("v") == 0)}
+    ctx.note("R27i: `voted` is set by %s" % sorted(users))
+
+
 def run(ctx):
     rule_leader_term_is_vote_term(ctx)
     rule_grant_dominated(ctx, "R27a", ["validate_hash", "validate_vote_state", "validate_term_for_vote", "validate_log_for_vote"])
@@ -613,4 +669,6 @@ def run(ctx):
     rule_who_leader(ctx)
     rule_vote_durable(ctx)
     rule_votes_of_this_election(ctx)
+    rule_stepdown_needs_newer_term(ctx)
+    rule_election_resets_votes(ctx)
     return 0
